@@ -13,7 +13,7 @@ import (
 // minus the first probe of the same advance must stay below a constant K that does not depend on
 // the gap g; with delegation depth d the bound is a + b*d.
 
-const ruleC17 = "loop forms {For with post, While, Loop+Break, loop with Continue, nested loops, Combine in body, delegation depth d} x " +
+const ruleC17 = "loop forms {For with post, While, Loop+Break, loop with Continue, nested loops, Combine in body, one inner loop VALUE re-run by an outer loop (2 and 3 levels), delegation depth d} x " +
 	"gap g (non-yielding iterations between two yields); depth probed with runtime.Callers in cond/body; " +
 	"non-trivial = g >= 100; distinct by (form, g, d)"
 
@@ -99,6 +99,38 @@ func filterGen(form string, n, gap int, probe func()) seq.Iterator[int] {
 					}),
 				)
 			}))
+		case "rerun-inner", "rerun-inner-combine", "rerun-three-levels":
+			// The inner loop is ONE Seq value, built once and run once per outer iteration (what the optimiser makes of
+			// `for rows() { for cols() { if keep() { Yield } } }`): rows of 3 columns, most rows yield nothing, so the
+			// non-yielding stretch spans many runs of the same inner loop value.
+			col := 0
+			step := seq.Delay(func() S {
+				probe()
+				j := i
+				i++
+				col++
+				if j%gap == 0 {
+					return seq.Bind(j, func() S { return normal() })
+				}
+				return normal()
+			})
+			inner := seq.While(func() bool { return col < 3 && i < n }, step)
+			switch form {
+			case "rerun-inner":
+				return seq.For(func() bool { probe(); return i < n }, func() { col = 0 }, inner)
+			case "rerun-inner-combine":
+				return seq.Loop(seq.Combine(inner, seq.Delay(func() S {
+					col = 0
+					if i >= n {
+						return seq.Break[int]()
+					}
+					return normal()
+				})))
+			default:
+				rows := 0
+				mid := seq.For(func() bool { return rows < 2 && i < n }, func() { col = 0 }, seq.Combine(inner, seq.Delay(func() S { rows++; return normal() })))
+				return seq.For(func() bool { return i < n }, func() { rows, col = 0, 0 }, mid)
+			}
 		}
 		panic("form " + form)
 	}))
@@ -119,7 +151,7 @@ func delegate(inner seq.Iterator[int], d int) seq.Iterator[int] {
 	return inner
 }
 
-var c17Forms = []string{"for-post", "while", "loop-break", "for-continue", "combine-body", "nested"}
+var c17Forms = []string{"for-post", "while", "loop-break", "for-continue", "combine-body", "nested", "rerun-inner", "rerun-inner-combine", "rerun-three-levels"}
 
 // measure returns, over all advances, the largest (deepest probe - first probe of that advance).
 func measureC17(cs c17Case, yields int) (growth int, base int, delivered []int) {
